@@ -56,6 +56,24 @@ def dec_cell(length, value, dt=0, m=None, keep=None):
     return obj_cell(r, f, length, value)
 
 
+def scribble(length, value, dt=0, m=None):
+    """Decode the frame once more and change the public numbers of the address objects hanging off THAT result -- what a
+    caller does with an object it was handed is its own business and must not reach any other decode."""
+    from dali import command, frame
+    try:
+        r = command.from_frame(frame.ForwardFrame(length, value), devicetype=dt, dev_inst_map=m)
+    except Exception:
+        return
+    for attr in ("destination", "short_address", "instance"):
+        sub = getattr(r, attr, None)
+        for a in ("address", "group"):
+            if sub is not None and isinstance(getattr(sub, a, None), int) and not isinstance(getattr(sub, a), bool):
+                try:
+                    setattr(sub, a, (getattr(sub, a) + 4) % 16)
+                except Exception:
+                    pass
+
+
 def obj_cell(r, f, length, value):
     """the cell of an already decoded object: what it says about itself NOW"""
     from dali import command
